@@ -9,6 +9,7 @@ mod c06_dwarf;
 mod leg_c06;
 mod leg_c07;
 mod leg_c07_eval;
+mod leg_c09;
 mod leg_c10;
 mod dap;
 mod leg_c11;
@@ -55,6 +56,9 @@ fn main() {
         "c19-e2e" => leg_c19::run(rest),
         "c10-e2e" => leg_c10::run(rest),
         "c10-acct" => leg_c10::run_acct(rest),
+        "c09-e2e" => leg_c09::run(rest),
+        "c09-e2e-worker" => leg_c09::run_worker(rest),
+        "c09-repro" => leg_c09::run_repro(rest),
         "c06-e2e" => leg_c06::run_e2e(rest),
         "c06-unit" => leg_c06::run_unit(rest),
         "c06-src" => leg_c06::run_src(rest),
